@@ -87,7 +87,8 @@ theorem dlogs_sound_named (c : Curve) (hc : c ∈ namedCurves) :
 
 /-- the hypotheses of `extendedBatchDL_sound_of_privateKey` are met on secp256r1 by the key
 `P = 5 • G` (kernel-evaluated scalar multiplication; `toPoint` of the result through
-`C11.multiply_nsmul`). -/
+`C11.multiply_nsmul`).  This shows the point hypotheses only; an `.ok` RUN of `BatchDL` on secp256r1 with
+recorded logs, to which `dlogs_sound_named` is applied, is in Props/C02CertEx.lean (second review, L7). -/
 example : secp256r1 ∈ namedCurves ∧ onCurve secp256r1 secp256r1.g = true ∧
     (multiply secp256r1 secp256r1.g 5).toOption.map (onCurve secp256r1) = some true := by
   decide +kernel
